@@ -93,6 +93,9 @@ def call(
             value = parameters[name]
             if not isinstance(value, numpoly.ndpoly):
                 value = numpy.asarray(value)
+                # powers are taken in the type the products are formed in,
+                # so a narrow argument type can not wrap around on its own.
+                value = value.astype(numpy.result_type(value, ones))
             term = term * value ** int(power)
         if isinstance(term, numpoly.ndpoly):
             tmp = numpoly.outer(coefficient, term)
